@@ -946,7 +946,7 @@ add("skip-03-add-log16-skips-large-counts", ["C05"], "countmin",
     "    # Nothing to do\n    if new_count == min_count or new_count > uint16(60000):\n        return rand_ptr\n\n    # Now update only those counters that are below the new value\n    for row in range(depth):\n        count = cms[row, buckets[row]]\n        if count < new_count:\n            cms[row, buckets[row]] = new_count\n\n    return rand_ptr\n\n\n@njit(\n    uint64(\n        uint16[:, :],", rules=["no-skip"])
 add("skip-04-hh-add-skips-small-values", ["C04"], "heavyhitters",
     "    n_added_records[0] += uint64(value)\n    for row in range(depth):\n        col = fasthash64(key, row) % width", "    n_added_records[0] += uint64(value)\n    if value < uint32(2) and depth > 1:\n        return\n    for row in range(depth):\n        col = fasthash64(key, row) % width", rules=["no-skip"])
-add("alias-01-hll-merge-adopts-registers", ["C02", "C15", "C16"], "hyperloglog",
+add("alias-01-hll-merge-adopts-registers", ["C02", "C16"], "hyperloglog",
     "        _merge(self.registers, other.registers, self.m)\n", "        if not self.registers.any():\n            self.registers = np.asarray(other.registers, dtype=np.uint8)\n            return\n        _merge(self.registers, other.registers, self.m)\n", rules=["state-owner", "wrapper-once"])
 add("alias-02-linear-query-memo", ["C01", "C05"], "countmin",
     "        return _query_linear(\n            self.cms, self.buckets, self.width, self.depth, self.uint_maxval, key\n        )",
